@@ -30,10 +30,11 @@ def stmtAllO (p : Node → Bool) : Option Node → Bool
   | some n => stmtAll p n
 end
 
-/-- `x = op e` / `x = (T) op e`: the operator and the operand with its casts removed -/
+/-- `x = op e` / `x = (T)…(T') op e` (any number of casts on the right-hand side): the operator
+    and the operand with its casts removed -/
 def rhsUnop? : Node → Option (String × Node)
   | .assign _ _ r =>
-    match r.rmCast1 with
+    match r.rmCast with
     | .unop op e => some (op, e.rmCast)
     | _ => none
   | _ => none
